@@ -181,6 +181,18 @@ void sim_judge_failure_if_open(struct sim *s, const char *where, int next_qtype,
 		if (purged)
 			expect_reset(s, "purged-after-failure");
 	}
+	if ((same || gone) && next_qtype < 0) {
+		/* judged at a reconnect or at the end of a phase: the query that follows is checked when it arrives */
+		s->c03_next.armed = true;
+		s->c03_next.purged = gone && !(bs_empty(&ex->B.p) && bs_empty(&ex->B.k));
+		s->c03_next.qtype = ex->qtype;
+		s->c03_next.sess = ex->qsess;
+		s->c03_next.serial = ex->qserial;
+		s->c03_next.defect = ex->defect;
+		s->c03_next.override = ex->override;
+		s->c03_next.reset_legit = s->expect_kind == 0 || s->accept_reset_too || ex->answer_reset || (ex->answer_error && ex->answer_err_code == 2) ||
+					  (gone && bs_empty(&ex->B.p) && bs_empty(&ex->B.k));
+	}
 	if (gone && !(bs_empty(&ex->B.p) && bs_empty(&ex->B.k))) {
 		expect_reset(s, "purged-after-failure");
 		s->holds_data = false;
@@ -204,6 +216,22 @@ static void on_query(struct sim *s, const uint8_t *p, uint32_t len)
 	s->errpdu_delivered_on_conn = false; /* "no report in reply to an Error Report" is per exchange */
 	CNT(type == 1 ? "wire/serial_queries" : "wire/reset_queries");
 	sim_judge_failure_if_open(s, "next-query", type, sess, serial);
+	if (s->c03_next.armed) {
+		bool next_is_reset = type == 2;
+		bool next_same = s->c03_next.qtype == 2 ? next_is_reset : (type == 1 && sess == s->c03_next.sess && serial == s->c03_next.serial);
+		bool legit_reset = next_is_reset && (s->c03_next.reset_legit || s->expect_kind == 0 || s->accept_reset_too);
+
+		s->c03_next.armed = false;
+		CNT("c03/next_query_checks_after_reconnect");
+		if (s->c03_next.purged && !next_is_reset) {
+			viol("C03", "C03:purged-but-serial-query:after-reconnect", "records were purged after the failed exchange but the query after the reconnect is a Serial Query (session %u serial %u)",
+			     sess, serial);
+		} else if (!s->c03_next.purged && !next_same && !legit_reset) {
+			snprintf(key, sizeof(key), "C03:next-query-differs:after-reconnect:%s", s->c03_next.override ? "override" : DEFECT_NAME[s->c03_next.defect]);
+			viol("C03", key, "records unchanged after the failed exchange, but the query after the reconnect (type %u session %u serial %u) differs from the one before (type %u session %u serial %u)",
+			     type, sess, serial, s->c03_next.qtype, s->c03_next.sess, s->c03_next.serial);
+		}
+	}
 
 	/* C07: the first query after a connect that followed expiry must be a Reset Query */
 	if (s->expect_reset_after_expiry) {
@@ -623,6 +651,7 @@ void sim_after_stop(struct sim *s)
 
 void sim_on_restart(struct sim *s)
 {
+	s->c03_next.armed = false;
 	expect_reset(s, "stop-start");
 	s->ever_synced = false;
 	s->expect_reset_after_expiry = false;
